@@ -8,6 +8,7 @@ package main
 //   V            SAVE through the command path, then wait until the snapshot goroutine has finished
 //   K            take a snapshot synchronously with an image of the data directory at every failpoint; restore every image
 //   F <what>     snapshot attempt made to fail: what = mkdir | state | manifest (the operation that is refused)
+//   KW <conn> <hex argv..>   snapshot with that command served between the state copy and the encoding -> "V ..", "R .."
 //   L <manifest|state> <n>   leftover of an earlier crash: an n-byte temporary file where the next snapshot creates its own
 //   T            restart: a fresh instance on the same data directory with snapshot restore on
 //   Z <ms>       let real time pass (the snapshot ticker runs only during Z)
@@ -226,6 +227,10 @@ func treeHash(dir string) string {
 	return hex.EncodeToString(h.Sum(nil))
 }
 
+// midSnapshot, when set, runs once on the snapshot goroutine right after the state has been copied and before it is
+// encoded and written: a client whose command is served in that window.
+var midSnapshot func()
+
 // hook is called on the goroutine that takes the snapshot.
 func hook(point, file string) {
 	dir := dirOf(file)
@@ -259,6 +264,11 @@ func hook(point, file string) {
 		return
 	}
 	name := kindOf(point, file)
+	if point == "state-copied" && midSnapshot != nil {
+		f := midSnapshot
+		midSnapshot = nil
+		f()
+	}
 	trace = append(trace, name)
 	if capture.Load() {
 		im := image{point: name, dir: snapImage(dir)}
@@ -604,6 +614,33 @@ func main() {
 					}
 				}
 				fmt.Fprintf(out, "V %s ls=%d was=%d\n", outcome(), in.db.VerifLatestSnapshot(), was)
+				out.Flush()
+			case "KW":
+				// a snapshot during which a command is served between the state copy and the encoding: the snapshot
+				// must hold the dataset of the instant of the copy
+				id, _ := strconv.Atoi(f[1])
+				argv := make([]string, len(f)-2)
+				for i, h := range f[2:] {
+					argv[i] = unhex(h)
+				}
+				was := in.db.VerifLatestSnapshot()
+				var reply string
+				cur := in
+				midSnapshot = func() {
+					res, herr, pan := cur.db.VerifHandle(cur.conn(id), encode(argv))
+					switch {
+					case pan != "":
+						reply = "!"
+					case herr != nil:
+						reply = "-"
+					default:
+						reply = canon(res)
+					}
+				}
+				runSnapshot(true)
+				midSnapshot = nil
+				fmt.Fprintf(out, "V %s ls=%d was=%d\n", outcome(), in.db.VerifLatestSnapshot(), was)
+				fmt.Fprintf(out, "R %s\n", reply)
 				out.Flush()
 			case "L":
 				// leftover of an earlier crash: a temporary file (longer than anything a snapshot writes) where the next
